@@ -30,16 +30,16 @@ Proof. intros H. unfold uses_above. apply existsb_set. exact H. Qed.
 
 (* ---------- the part of the invariant that concerns the clause cache alone ----------
    cur / prev: the abstract current and previous clause sets.  edit_add / edit_rmv are the
-   difference that leads back: prev = (clauses \ edit_add) + edit_rmv, with edit_add inside
-   and edit_rmv outside of (clauses \ edit_add), both duplicate-free. *)
+   difference that leads back: prev = (cclauses \ edit_add) + edit_rmv, with edit_add inside
+   and edit_rmv outside of (cclauses \ edit_add), both duplicate-free. *)
 Record Inv (c : cache) (cur prev : list clause) : Prop := mkInv {
-  inv_sorted : SS (clauses c);
-  inv_cur : set_eq (clauses c) cur;
+  inv_sorted : SS (cclauses c);
+  inv_cur : set_eq (cclauses c) cur;
   inv_add_nodup : NoDup (edit_add c);
-  inv_add_in : forall x, In x (edit_add c) -> In x (clauses c);
-  inv_back : forall x, In x prev <-> (In x (clauses c) /\ ~ In x (edit_add c)) \/ In x (edit_rmv c);
+  inv_add_in : forall x, In x (edit_add c) -> In x (cclauses c);
+  inv_back : forall x, In x prev <-> (In x (cclauses c) /\ ~ In x (edit_add c)) \/ In x (edit_rmv c);
   inv_rmv_nodup : NoDup (edit_rmv c);
-  inv_rmv_out : forall x, In x (edit_rmv c) -> ~ In x (clauses c) \/ In x (edit_add c);
+  inv_rmv_out : forall x, In x (edit_rmv c) -> ~ In x (cclauses c) \/ In x (edit_add c);
 }.
 
 Lemma Inv_set_old c o cur prev : Inv c cur prev -> Inv (set_old c o) cur prev.
@@ -56,7 +56,7 @@ Proof.
   destruct (remove_all_some rm cl s1 Hcl Hr) as [S1 [Nrm [Rin H1]]].
   pose proof (insert_all_spec ad s1 S1) as J. rewrite Hi in J. cbn [fst snd] in J.
   destruct J as [S2 [H2 [Nad H4]]].
-  constructor; cbn [clauses edit_add edit_rmv].
+  constructor; cbn [cclauses edit_add edit_rmv].
   - exact S2.
   - intros x. rewrite H2, H1, Hcur. tauto.
   - exact Nad.
@@ -116,7 +116,7 @@ Proof.
   destruct (stored_set raw) as [|c0 r0] eqn:Es; [exfalso; apply Hne; reflexivity|].
   exists (initialize (c0 :: r0) n). cbn [cached live_of m_init m_cs m_n m_prev prev_of fst snd].
   split; [reflexivity|]. split.
-  - constructor; cbn [initialize clauses edit_add edit_rmv].
+  - constructor; cbn [initialize cclauses edit_add edit_rmv].
     + exact S1.
     + exact Hset.
     + constructor.
@@ -135,8 +135,8 @@ Definition rmv_ok (m : mstate) (rmvN : list clause) : bool :=
 Definition m_after (m : mstate) (addN rmvN : list clause) (tot : nat) : mstate :=
   mkM (filter (fun c => negb (mem_clause c rmvN)) (m_cs m) ++ addN) tot (Some (m_cs m, m_n m)).
 
-Lemma rmv_ok_iff m c rmvN : set_eq (clauses c) (m_cs m) ->
-  rmv_ok m rmvN = true <-> NoDup rmvN /\ forall x, In x rmvN -> In x (clauses c).
+Lemma rmv_ok_iff m c rmvN : set_eq (cclauses c) (m_cs m) ->
+  rmv_ok m rmvN = true <-> NoDup rmvN /\ forall x, In x rmvN -> In x (cclauses c).
 Proof.
   intros Hs. unfold rmv_ok. rewrite andb_true_iff, nodup_clauses_NoDup, forallb_forall. split.
   - intros [H1 H2]. split; [exact H2|]. intros x Hx. apply Hs. apply mem_clause_In. apply H1. exact Hx.
@@ -145,9 +145,9 @@ Qed.
 
 Lemma update_refines d m addN rmvN tot : R d m ->
   match upd d addN rmvN tot with
-  | (d', RTrue) => rmv_ok m rmvN = true /\ R d' (m_after m addN rmvN tot)
-  | (d', RFalse) => rmv_ok m rmvN = false /\ d' = d
-  | (d', RPanic) => rmv_ok m rmvN = true /\
+  | (d', UTrue) => rmv_ok m rmvN = true /\ R d' (m_after m addN rmvN tot)
+  | (d', UFalse) => rmv_ok m rmvN = false /\ d' = d
+  | (d', UPanic) => rmv_ok m rmvN = true /\
                     loadable (canon_set (m_cs (m_after m addN rmvN tot))) tot = false
   end.
 Proof.
@@ -155,23 +155,23 @@ Proof.
   unfold cc_update. rewrite Hc. unfold apply_edits_and_replace. rewrite Ht.
   unfold setup_for_edit.
   pose proof (inv_sorted _ _ _ HI) as Scl. pose proof (inv_cur _ _ _ HI) as Hcur.
-  destruct (remove_all rmvN (clauses c)) as [s1|] eqn:Er.
+  destruct (remove_all rmvN (cclauses c)) as [s1|] eqn:Er.
   - destruct (remove_all_some rmvN _ s1 Scl Er) as [S1 [Nrm [Rin H1]]].
     destruct (insert_all addN s1) as [s2 added] eqn:Ei.
     assert (rmv_ok m rmvN = true) as Hok by (apply (rmv_ok_iff m c rmvN Hcur); split; assumption).
     assert (forall x, In x (m_cs (m_after m addN rmvN tot)) <->
-                      (In x (clauses c) /\ ~ In x rmvN) \/ In x addN) as Hnew.
+                      (In x (cclauses c) /\ ~ In x rmvN) \/ In x addN) as Hnew.
     { intros x. cbn [m_after m_cs]. rewrite in_app_iff, filter_In, negb_true_iff, mem_clause_false.
       rewrite <- (Hcur x). tauto. }
     assert (forall o, Inv (mkCache s2 added rmvN (Some tot) (total c) o)
                           (m_cs (m_after m addN rmvN tot)) (m_cs m)) as HI'.
-    { intros o. apply (edit_inv (clauses c) rmvN addN s1 s2 added); try assumption.
+    { intros o. apply (edit_inv (cclauses c) rmvN addN s1 s2 added); try assumption.
       intros x. symmetry. apply Hcur. }
-    pose proof (inv_sorted _ _ _ (HI' None)) as S2. cbn [clauses] in S2.
-    pose proof (inv_cur _ _ _ (HI' None)) as Hcur2. cbn [clauses] in Hcur2.
-    cbn [clauses]. destruct (loadable s2 tot) eqn:El.
+    pose proof (inv_sorted _ _ _ (HI' None)) as S2. cbn [cclauses] in S2.
+    pose proof (inv_cur _ _ _ (HI' None)) as Hcur2. cbn [cclauses] in Hcur2.
+    cbn [cclauses]. destruct (loadable s2 tot) eqn:El.
     + split; [exact Hok|].
-      unfold do_swap. cbn [cached set_old old clauses edit_add edit_rmv total old_total live_of].
+      unfold do_swap. cbn [cached set_old old cclauses edit_add edit_rmv total old_total live_of].
       eexists. cbn [cached]. split; [reflexivity|].
       cbn [m_after m_cs m_n m_prev prev_of fst snd total old_total old live_of].
       split; [apply HI'|]. split; [reflexivity|]. split; [exact Ht|]. split.
@@ -197,7 +197,7 @@ Proof. unfold m_accepts, rmv_ok. rewrite andb_assoc. reflexivity. Qed.
 
 (* what one clause-update may do, judged by the abstract machine *)
 Definition update_ok (d : dstate) (m : mstate) (t : option Z) (add rmv : list (list Z))
-           (d' : dstate) (a : answer) : Prop :=
+           (d' : dstate) (a : cc_answer) : Prop :=
   match a with
   | AOk => m_accepts m t add rmv = true /\ R d' (m_update m t add rmv)
   | AErr _ => m_accepts m t add rmv = false /\ d' = d
@@ -258,7 +258,7 @@ Lemma undo_cache c cur prev : Inv c cur prev ->
 Proof.
   intros HI. unfold setup_for_undo, setup_for_edit.
   pose proof (inv_sorted _ _ _ HI) as Scl.
-  destruct (remove_all_complete (edit_add c) (clauses c) Scl (inv_add_nodup _ _ _ HI) (inv_add_in _ _ _ HI))
+  destruct (remove_all_complete (edit_add c) (cclauses c) Scl (inv_add_nodup _ _ _ HI) (inv_add_in _ _ _ HI))
     as [s1 Er].
   rewrite Er. destruct (remove_all_some _ _ s1 Scl Er) as [S1 [_ [_ H1]]].
   destruct (insert_all (edit_rmv c) s1) as [s2 added] eqn:Ei.
@@ -267,7 +267,7 @@ Proof.
     rewrite Ei in HF. cbn [snd] in HF. apply HF.
     intros x Hx Hs1. apply H1 in Hs1. destruct (inv_rmv_out _ _ _ HI x Hx) as [H|H]; tauto. }
   subst added. exists s2. split; [reflexivity|].
-  apply (edit_inv (clauses c) (edit_add c) (edit_rmv c) s1 s2 (edit_rmv c)); try assumption.
+  apply (edit_inv (cclauses c) (edit_add c) (edit_rmv c) s1 s2 (edit_rmv c)); try assumption.
   - intros x. rewrite (inv_back _ _ _ HI x). tauto.
   - intros x. symmetry. apply (inv_cur _ _ _ HI).
 Qed.
@@ -283,7 +283,7 @@ Proof.
   - destruct Ho as [o [Ho1 Ho2]]. rewrite Ho1. cbn [fst snd] in *.
     eexists. cbn [cached]. split; [reflexivity|].
     unfold prev_of.
-    cbn [m_cs m_n m_prev set_old clauses edit_add edit_rmv total old_total old live_of fst snd].
+    cbn [m_cs m_n m_prev set_old cclauses edit_add edit_rmv total old_total old live_of fst snd].
     split; [rewrite Ho1 in HI'; apply (Inv_set_old _ (Some (live_of d))) in HI'; exact HI'|].
     split; [exact Hot|]. split; [exact Ht|]. split; [exact Ho2|].
     exists (live_of d). split; [reflexivity|exact Hl].
@@ -301,7 +301,7 @@ Proof.
 Qed.
 
 (* ---------- one step, any command ---------- *)
-Definition step_ok (d : dstate) (m : mstate) (c : cmd) (d' : dstate) (a : answer) : Prop :=
+Definition step_ok (d : dstate) (m : mstate) (c : cc_cmd) (d' : dstate) (a : cc_answer) : Prop :=
   match c with
   | CUpdate t add rmv => update_ok d m t add rmv d' a
   | CUndo => a = AOk /\ R d' (m_undo m)
@@ -328,7 +328,7 @@ Qed.
 
 (* ---------- histories ---------- *)
 (* the answers, as far as the history got, are the ones the abstract machine prescribes *)
-Fixpoint answers_ok (m : mstate) (cs : list cmd) (ans : list answer) : Prop :=
+Fixpoint answers_ok (m : mstate) (cs : list cc_cmd) (ans : list cc_answer) : Prop :=
   match ans, cs with
   | [], [] => True
   | a :: ans', c :: cs' =>
@@ -394,22 +394,22 @@ Proof.
   destruct (undo_cache c _ _ HI) as [s2 [Hs HI1]].
   assert (forall o, fst (setup_for_undo false
                            (mkCache s2 (edit_rmv c) (edit_add c) (old_total c) (total c) o)) =
-                    mkCache (clauses c) (edit_add c) (edit_rmv c) (total c) (old_total c) o) as H2.
+                    mkCache (cclauses c) (edit_add c) (edit_rmv c) (total c) (old_total c) o) as H2.
   { intros o.
     assert (Inv (mkCache s2 (edit_rmv c) (edit_add c) (old_total c) (total c) o)
                 (fst (prev_of m)) (m_cs m)) as HIo.
     { destruct HI1. constructor; assumption. }
     destruct (undo_cache _ _ _ HIo) as [s3 [Hs3 HI3]]. rewrite Hs3.
-    cbn [fst clauses edit_add edit_rmv total old_total old] in *.
+    cbn [fst cclauses edit_add edit_rmv total old_total old] in *.
     f_equal. apply SS_unique.
     - exact (inv_sorted _ _ _ HI3).
     - exact (inv_sorted _ _ _ HI).
     - intros x. rewrite (inv_cur _ _ _ HI3 x). symmetry. apply (inv_cur _ _ _ HI). }
   unfold cc_undo at 2. cbn [cached live_of fst]. rewrite Hs. cbn [fst].
-  unfold do_swap. cbn [cached old live_of set_old clauses edit_add edit_rmv total old_total].
+  unfold do_swap. cbn [cached old live_of set_old cclauses edit_add edit_rmv total old_total].
   destruct (old c) as [o|] eqn:Eo.
-  - unfold cc_undo. cbn [cached fst live_of]. unfold set_old. cbn [clauses edit_add edit_rmv total old_total old]. rewrite (H2 (Some l)).
-    unfold do_swap, set_old. cbn [cached old live_of clauses edit_add edit_rmv total old_total].
+  - unfold cc_undo. cbn [cached fst live_of]. unfold set_old. cbn [cclauses edit_add edit_rmv total old_total old]. rewrite (H2 (Some l)).
+    unfold do_swap, set_old. cbn [cached old live_of cclauses edit_add edit_rmv total old_total].
     destruct c; cbn in *. subst. reflexivity.
   - unfold cc_undo. cbn [cached fst live_of]. rewrite (H2 None).
     unfold do_swap. cbn [cached old].
